@@ -1095,46 +1095,61 @@ func runStderr(c *harness.Ctx) harness.Result {
 	defer srv.Close()
 	n := 100 + r.Intn(29)
 	var urls []string
-	want := map[string]bool{}
 	for i := 0; i < n; i++ {
-		u := fmt.Sprintf("%s/pprof/heap?src=%03d", srv.URL, i)
-		urls = append(urls, u)
-		want["Fetching profile over HTTP from "+u] = true
+		urls = append(urls, fmt.Sprintf("%s/pprof/heap?src=%03d", srv.URL, i))
 	}
-	home := filepath.Join(c.Tmp, "home")
-	os.MkdirAll(home, 0o755)
-	argv := append([]string{exe, "-top", "-symbolize=none", "-output", filepath.Join(c.Tmp, "out.txt")}, urls...)
-	if st, err := exec.LookPath("strace"); err == nil && c.Index%2 == 0 {
-		// every other run under strace: each write call is stopped and resumed, which spreads the
-		// threads' writes in time the way a slow terminal does
-		argv = append([]string{st, "-f", "-qq", "-o", "/dev/null", "-e", "trace=write"}, argv...)
-		c.Stat("stderr_runs_under_strace", 1)
+	// What pprof prints is compared with what the same executable prints when it is given the same
+	// command line a second time (own home directory, so that saved files get the same names): the
+	// messages may come in another order, but as whole lines they are the same multiset. A message
+	// torn by another thread's output gives lines that the other run does not have.
+	saved := regexp.MustCompile(`\.[0-9]{3,}\.pb\.gz`)
+	runOnce := func(tag string, traced bool) ([]string, string, error) {
+		home := filepath.Join(c.Tmp, "home"+tag)
+		os.MkdirAll(home, 0o755)
+		argv := append([]string{exe, "-top", "-symbolize=none", "-output", filepath.Join(c.Tmp, "out.txt")}, urls...)
+		if st, err := exec.LookPath("strace"); err == nil && traced {
+			// under strace each write call is stopped and resumed, which spreads the threads' writes
+			// in time the way a slow terminal does
+			argv = append([]string{st, "-f", "-qq", "-o", "/dev/null", "-e", "trace=write"}, argv...)
+			c.Stat("stderr_runs_under_strace", 1)
+		}
+		cmd := exec.Command(argv[0], argv[1:]...)
+		cmd.Env = []string{"HOME=" + home, "XDG_CONFIG_HOME=" + home + "/config", "PPROF_TMPDIR=" + home + "/tmp", "PATH=/nonexistent"}
+		var errb bytes.Buffer
+		cmd.Stderr = &errb
+		err := cmd.Run()
+		text := strings.ReplaceAll(errb.String(), home, "<HOME>")
+		text = drv.NormalizeTmpNames(saved.ReplaceAllString(text, ".NNN.pb.gz"))
+		lines := strings.Split(strings.TrimSuffix(text, "\n"), "\n")
+		sort.Strings(lines)
+		return lines, errb.String(), err
 	}
-	cmd := exec.Command(argv[0], argv[1:]...)
-	cmd.Env = []string{"HOME=" + home, "XDG_CONFIG_HOME=" + home + "/config", "PPROF_TMPDIR=" + home + "/tmp", "PATH=/nonexistent"}
-	var errb bytes.Buffer
-	cmd.Stderr = &errb
-	if err := cmd.Run(); err != nil {
-		return harness.Violation("pprof -top over %d URL sources failed: %v\n%s", n, err, harness.Trunc(errb.String(), 1500))
+	a, rawA, err := runOnce("A", c.Index%2 == 0)
+	if err != nil {
+		return harness.Violation("pprof -top over %d URL sources failed: %v\n%s", n, err, harness.Trunc(rawA, 1500))
+	}
+	b, rawB, err := runOnce("B", false)
+	if err != nil {
+		return harness.Violation("pprof -top over %d URL sources failed: %v\n%s", n, err, harness.Trunc(rawB, 1500))
 	}
 	res := harness.Result{NonTrivial: true, Sig: fmt.Sprint("stderr", c.Index, n), Sample: map[string]any{"sources": n}}
-	c.Stat("stderr_runs", 1)
-	seen := 0
-	for i, l := range strings.Split(strings.TrimSuffix(errb.String(), "\n"), "\n") {
-		switch {
-		case want[l]:
-			delete(want, l)
-			seen++
-		case strings.HasPrefix(l, "Saved profile in "), strings.HasPrefix(l, "Generating report in "):
-		default:
+	c.Stat("stderr_runs", 2)
+	c.Stat("stderr_message_lines", int64(len(a)))
+	inB := map[string]int{}
+	for _, l := range b {
+		inB[l]++
+	}
+	for _, l := range a {
+		if inB[l] == 0 {
 			res.Verdict = harness.Violated
-			res.Detail = fmt.Sprintf("line %d of what pprof printed while fetching %d sources is not one whole message: %q\n%s", i+1, n, harness.Trunc(l, 300), harness.Trunc(errb.String(), 1200))
+			res.Detail = fmt.Sprintf("a line of what pprof printed while fetching %d sources is not one whole message (the same command line run again prints no such line): %q\nfirst run:\n%s", n, harness.Trunc(l, 300), harness.Trunc(rawA, 1200))
 			return res
 		}
+		inB[l]--
 	}
-	c.Stat("stderr_message_lines", int64(seen))
-	if seen != n {
-		res.Verdict, res.Detail = harness.Violated, fmt.Sprintf("%d of %d 'Fetching profile over HTTP from ...' messages arrived as lines of their own", seen, n)
+	if len(a) != len(b) {
+		res.Verdict, res.Detail = harness.Violated, fmt.Sprintf("pprof printed %d lines while fetching %d sources and %d lines when given the same command line again\nfirst run:\n%s", len(a), n, len(b), harness.Trunc(rawA, 1200))
+		return res
 	}
 	return res
 }
